@@ -1,4 +1,6 @@
 """C13 cubical complexes: the filtration order clause (total, value first, faces first, schedule independent)."""
+import re
+
 from gsa import cmprules, facts, ir, paths
 from gsa.facts import Unit, rel, AnalysisBroken
 from gsa.report import Check
@@ -168,6 +170,84 @@ def run_coboundary_bounds(chk, F):
            bad or '', key='E2g|Bitmap_cubical_complex_base::get_coboundary_of_a_cell|bounds')
 
 
+def run_reader_bounds(chk, F):
+    """E5w-bounded-fill: "built from top-cell values": the Perseus readers store one value per top dimensional cell
+    through an iterator while a stream lasts. In every loop driven by the stream (condition or body extracts from it)
+    a store `get_cell_data(*it) = v` is preceded, in the same iteration, by a test that leaves the loop (throw /
+    break / return) when the iterator is at the end of the cells - directly, or through a counter advanced in step
+    with it. A loop that only tests eof() also tests the stream before it uses a value extracted with operator>>
+    (a failed extraction never reaches the end of the file)."""
+    n = 0
+    seen = set()
+    for f in F.functions:
+        if f.get('inst') not in (0, 2) or f.get('body') is None or 'Bitmap_cubical_complex' not in f['file']:
+            continue
+        if (f['file'], f['line']) in seen:
+            continue
+        for lp in ir.walk(f['body']):
+            if lp.get('k') not in ('WhileStmt', 'ForStmt', 'DoStmt'):
+                continue
+            ct = ir.show(lp.get('cond')) if lp.get('cond') is not None else ''
+            bt = ' ; '.join(ir.show(x) for x in ir.walk(lp.get('body')) if x.get('k') != 'CompoundStmt')
+            stream_driven = 'eof()' in ct or '>>' in ct or 'getline' in ct
+            if not stream_driven:
+                continue
+            writes = []
+            for x in ir.walk(lp.get('body')):
+                t = ir.write_target(x)
+                if t is not None and x.get('op') == '=':
+                    tt = ir.skipcasts(t)
+                    if tt is not None and ir.is_call(tt) and ir.call_name(tt) == 'get_cell_data' and ir.call_args(tt):
+                        a0 = ir.show(ir.call_args(tt)[0]).replace(' ', '').lstrip('(*').rstrip(')')
+                        writes.append((x, a0))
+            if not writes:
+                continue
+            seen.add((f['file'], f['line']))
+            # counters advanced in the same compound statement as the iterator
+            order = {id(x): i for i, x in enumerate(ir.walk(lp.get('body')))}
+            for w, it in writes:
+                n += 1
+                step = set()
+                for cs in ir.walk(lp.get('body')):
+                    if cs.get('k') != 'CompoundStmt':
+                        continue
+                    incs = [ir.show(ir.skipcasts(y['c'][0])) for y in cs.get('c') or []
+                            if y.get('k') == 'UnaryOperator' and y.get('op') == '++']
+                    if it in incs:
+                        step.update(incs)
+                step.add(it)
+                guard = None
+                for g in ir.walk(lp.get('body')):
+                    if g.get('k') != 'IfStmt' or order[id(g)] > order[id(w)]:
+                        continue
+                    gt = ir.show(g.get('cond'))
+                    leaves = ir.contains(g.get('then'), lambda y: y.get('k') in ('CXXThrowExpr', 'BreakStmt',
+                                                                                 'ReturnStmt'))
+                    names = set(re.findall(r'\w+', gt))
+                    if leaves and (names & step) and ('==' in gt or '>=' in gt or '!=' in gt or '>' in gt):
+                        if it in names and '_end()' not in gt and 'end()' not in gt:
+                            continue
+                        guard = g
+                        break
+                chk.ob('E5w-bounded-fill', '%s: the store through `%s` in the stream loop at line %s is preceded by a '
+                       'test that leaves the loop at the end of the cells' % (f['name'], it, lp.get('l')),
+                       '%s:%s' % (rel(f['file']), w.get('l')), guard is not None,
+                       '' if guard is not None else 'no test of `%s` (or of a counter advanced with it) against the '
+                       'number of cells precedes the store: a file with more values than cells writes past the bitmap'
+                       % it, key='E5w|%s|bounded-fill' % f['name'])
+                extracts = '>>' in bt and 'getline' not in bt
+                if 'eof()' in ct and '>>' not in ct and extracts:
+                    tested = any(g.get('k') == 'IfStmt' and order[id(g)] < order[id(w)] and
+                                 re.search(r'fail\(\)|!\s*\w+\b(?!\.)|\.good\(\)', ir.show(g.get('cond')))
+                                 and 'eof' not in ir.show(g.get('cond')) for g in ir.walk(lp.get('body')))
+                    chk.ob('E5w-bounded-fill', '%s: the loop at line %s tests the stream before it uses a value '
+                           'extracted with operator>>' % (f['name'], lp.get('l')), '%s:%s' % (rel(f['file']),
+                           lp.get('l')), tested, '' if tested else 'the loop only tests eof(): an extraction that '
+                           'fails (e.g. on "inf") never reaches the end of the file and the body keeps storing',
+                           key='E5w|%s|stream-progress' % f['name'])
+    chk.expect_count('E5w-bounded-fill', 'stores through an iterator in stream-driven loops', n, 2)
+
+
 def run(tier, replay=None):
     chk = Check('C13', tier,
                 'Static decision of the filtration-order clause of the cubical complex: the comparator handed to the '
@@ -213,6 +293,7 @@ def run(tier, replay=None):
     run_boundary_alternation(chk, F)
     run_fill_values(chk, F)
     run_coboundary_bounds(chk, F)
+    run_reader_bounds(chk, F)
     chk.assumptions += ['filtration values obey trichotomy (no NaN), as the property states',
                         'clang 14 parser; both preprocessor configurations parsed']
     return chk
